@@ -142,7 +142,7 @@ func runWorkers(bin, prop, tier string, seed uint64, nw int, budgetMs int, extra
 			}
 			data, rerr := os.ReadFile(outPath)
 			o := &workerOut{Worker: w}
-			if rerr != nil || json.Unmarshal(data, o) != nil || (err != nil && o.Infra == "") {
+			if rerr != nil || json.Unmarshal(data, o) != nil || (err != nil && o.Infra == "" && len(o.Violation) == 0) {
 				tail := string(outb)
 				if len(tail) > 3000 {
 					tail = tail[len(tail)-3000:]
@@ -192,7 +192,18 @@ func main() {
 			infra("--replay needs a file")
 		}
 		rf, _ := filepath.Abs(os.Args[3])
-		outs := runWorkers(bin, prop, "quick", 0, 1, 60000, []string{"VERIF_REPLAY=" + rf}, scratch)
+		extra := []string{"VERIF_REPLAY=" + rf}
+		if data, err := os.ReadFile(rf); err == nil {
+			var head struct {
+				Race bool `json:"race"`
+			}
+			if json.Unmarshal(data, &head) == nil && head.Race {
+				build(scratch, true)
+				bin = filepath.Join(scratch, "harness.race.test")
+				extra = append(extra, raceEnv(scratch)...)
+			}
+		}
+		outs := runWorkers(bin, prop, "quick", 0, 1, 60000, extra, scratch)
 		o := outs[0]
 		if o.Infra != "" {
 			os.RemoveAll(scratch)
@@ -246,12 +257,19 @@ func main() {
 	}
 	if raceS > 0 {
 		build(scratch, true)
-		raceOuts = runWorkers(filepath.Join(scratch, "harness.race.test"), prop, tier, seed+1, nw, raceS*1000, []string{"VERIF_RACE=1", "GORACE=halt_on_error=0 exitcode=0 log_path=" + filepath.Join(scratch, "race")}, scratch)
+		raceOuts = runWorkers(filepath.Join(scratch, "harness.race.test"), prop, tier, seed+1, nw, raceS*1000, raceEnv(scratch), scratch)
 	}
 	finish(prop, tier, seed, nw, append(outs, raceOuts...), len(raceOuts), start, buildS, scratch)
 }
 
-var raceProps = map[string]bool{}
+// properties whose statement includes "without data races": part of the budget
+// is spent on the same search under a -race build
+var raceProps = map[string]bool{"C09": true, "C14": true}
+
+func raceEnv(scratch string) []string {
+	prefix := filepath.Join(scratch, "race")
+	return []string{"VERIF_RACE=1", "VERIF_RACE_LOG=" + prefix, "GORACE=halt_on_error=0 log_path=" + prefix}
+}
 
 func finish(prop, tier string, seed uint64, nw int, outs []*workerOut, nRace int, start time.Time, buildS float64, scratch string) {
 	agg := &workerOut{Faults: map[string]int64{}, Probes: map[string]int64{}, Strategies: map[string]int{}, Stacks: map[string]int{}}
@@ -305,6 +323,12 @@ func finish(prop, tier string, seed uint64, nw int, outs []*workerOut, nRace int
 			}
 		}
 	}
+	raceRuns := 0
+	for i := len(outs) - nRace; i < len(outs); i++ {
+		if i >= 0 {
+			raceRuns += outs[i].Runs
+		}
+	}
 	wall := time.Since(start).Seconds()
 	nviol := 0
 	replayPath := ""
@@ -354,6 +378,7 @@ func finish(prop, tier string, seed uint64, nw int, outs []*workerOut, nRace int
 		"build_wall_s":                 buildS,
 		"workers":                      nw,
 		"race_build_workers":           nRace,
+		"race_build_runs":              raceRuns,
 		"faults_fired":                 agg.Faults,
 		"probes":                       agg.Probes,
 		"strategy_mix":                 agg.Strategies,
